@@ -146,6 +146,21 @@ def run_property(pid, tier, seed, args):
         except OutOfSubset as e:
             rep = None
             err = 'out-of-subset: %s' % e
+        except Exception as e:      # noqa
+            # a hook of the contract does not fit the code any more (a changed call signature, a renamed field ...).
+            # On unchanged source that is a defect of the check itself; otherwise the function is undecided.
+            from .interp import fn_source as _fs
+            import ast as _ast2, hashlib as _hl
+            try:
+                fnode, _c, _q, path = _fs(c.fn)
+                sha_now = _hl.sha256((_ast2.get_source_segment(open(path).read(), fnode) or '').encode()).hexdigest()
+            except Exception:       # noqa
+                sha_now = None
+            was = (N.load_lock_full(pid) or {}).get('top_sha', {}).get(c.target + '#' + type(c).__name__)
+            if was is not None and was == sha_now:
+                raise
+            rep = None
+            err = 'contract-mismatch: %s: %s' % (type(e).__name__, e)
         if rep is None or rep.error:
             err = rep.error if rep is not None else err
             if err.startswith('vacuous'):
@@ -169,6 +184,7 @@ def run_property(pid, tier, seed, args):
     # ---- vacuity guard: on unchanged source the explored paths must be the ones recorded in the lock -------------
     lockdata = N.load_lock_full(pid)
     shape = {}
+    top_sha = {}
     for rp in reports:
         rep = rp.get('rep')
         if rep is None or rep.source is None or rp.get('error'):
@@ -177,6 +193,7 @@ def run_property(pid, tier, seed, args):
         for pth in rep.paths:
             key = pth['case'] + '/' + pth['kind']
             kinds[key] = kinds.get(key, 0) + 1
+        top_sha[rep.target + '#' + type(rp['contract']).__name__] = rep.source['sha256']
         shape[rep.target + '#' + type(rp['contract']).__name__] = {'sha256': rep.source.get('closure_sha256', rep.source['sha256']), 'paths': kinds,
                                                                    'obligations': len(rep.obligations)}
     if lockdata and not args.write_lock:
@@ -416,7 +433,7 @@ def run_property(pid, tier, seed, args):
         'violations': violations,
     }
     if args.write_lock:
-        N.write_lock(pid, {'shape': shape,
+        N.write_lock(pid, {'shape': shape, 'top_sha': {k: top_sha[k] for k in top_sha},
                            'names': sorted(ob.name for i, ob in enumerate(obligations) if results[i]['status'] == 'unsat' or
                                            str(results[i]['status']).startswith('known-finding'))})
     if not args.no_evidence:
